@@ -7,6 +7,8 @@ import (
 
 	"github.com/tuneinsight/lattigo/v6/core/rlwe"
 	"github.com/tuneinsight/lattigo/v6/ring"
+	"github.com/tuneinsight/lattigo/v6/schemes/bgv"
+	"github.com/tuneinsight/lattigo/v6/schemes/ckks"
 	"github.com/tuneinsight/lattigo/v6/utils/sampling"
 
 	"verif/uni"
@@ -31,6 +33,9 @@ var (
 	ChainMid5  = Chain{"mid5", 5, []int{30, 30, 30}, []int{30, 30}}
 	// ChainTiny: the smallest NTT-friendly primes (bits 0 = smallest), so that residues of public points collide easily
 	ChainTiny = Chain{"tiny", 4, []int{0, 0, 0}, []int{0}}
+	// CKKS chains: enough modulus below the top for GetMinimumLevelForRefresh(128, scale, N, Q) to have room
+	ChainCK40 = Chain{"ck40", 4, []int{60, 50, 50, 40, 40, 40}, []int{61}}
+	ChainCK25 = Chain{"ck25", 5, []int{55, 50, 50, 25, 25}, []int{56}}
 )
 
 // Moduli returns distinct primes of the requested sizes.
@@ -83,6 +88,30 @@ func (ch Chain) RLWE(ntt bool) rlwe.Parameters {
 	return Cached(fmt.Sprintf("rlwe/%s/%v", ch.Name, ntt), func() rlwe.Parameters {
 		Q, P := ch.Moduli()
 		return uni.RLWE(rlwe.ParametersLiteral{LogN: ch.LogN, Q: Q, P: P, NTTFlag: ntt})
+	})
+}
+
+// BGV returns bgv.Parameters over the chain with plaintext modulus t.
+func (ch Chain) BGV(t uint64) bgv.Parameters {
+	return Cached(fmt.Sprintf("bgv/%s/%d", ch.Name, t), func() bgv.Parameters {
+		Q, P := ch.Moduli()
+		p, err := bgv.NewParametersFromLiteral(bgv.ParametersLiteral{LogN: ch.LogN, Q: Q, P: P, PlaintextModulus: t})
+		if err != nil {
+			panic(fmt.Sprintf("mp.BGV: %v", err))
+		}
+		return p
+	})
+}
+
+// CKKS returns ckks.Parameters over the chain with default scale 2^logScale.
+func (ch Chain) CKKS(logScale int) ckks.Parameters {
+	return Cached(fmt.Sprintf("ckks/%s/%d", ch.Name, logScale), func() ckks.Parameters {
+		Q, P := ch.Moduli()
+		p, err := ckks.NewParametersFromLiteral(ckks.ParametersLiteral{LogN: ch.LogN, Q: Q, P: P, LogDefaultScale: logScale})
+		if err != nil {
+			panic(fmt.Sprintf("mp.CKKS: %v", err))
+		}
+		return p
 	})
 }
 
